@@ -1,6 +1,5 @@
 import H5V.Proto
 import H5V.Model.HtmlTB
-import H5V.Model.DomDriver
 /- engine `tb` — html5ever's HTML tree builder (harness/src/engines/tb.rs speaks the same protocol).
 
    case = `tb<TAB>mode<TAB>opts<TAB>ctx<TAB>payload`
@@ -29,9 +28,29 @@ import H5V.Model.DomDriver
    results: the non-Continue answers of `process_token`: `P`, `R0`…`R4`, `S<handle>`, `I:<hex>`. -/
 namespace H5V.Model.HtmlTBDriver
 open H5V.Proto H5V.Model.Dom H5V.Model.HtmlTB
-open H5V.Model.DomDriver (parseStr? parseQual? parseAttrs?)
-
 abbrev Str := List Char
+
+/-- a Unicode scalar value (what `char::from_u32` accepts) -/
+def validScalar (n : Nat) : Bool := n < 0xD800 || (0xE000 ≤ n && n < 0x110000)
+
+/-- space-separated hex code points, `-` = empty; rejects anything that is not a scalar value -/
+def parseStr? (s : String) : Option Str := do
+  let ns ← parseNums? s
+  if ns.all validScalar then some (ns.map Char.ofNat) else none
+
+def parseQual? (s : String) : Option QualName :=
+  match s.splitOn "/" with
+  | [p, ns, loc] => do
+    let pfx ← if p == "~" then some none else (parseStr? p).map some
+    some { pfx := pfx, ns := ← parseStr? ns, loc := ← parseStr? loc }
+  | _ => none
+
+def parseAttrs? (s : String) : Option (List Attr) :=
+  if s == "-" then some [] else
+  (s.splitOn "&").mapM (fun a =>
+    match a.splitOn "=" with
+    | [q, v] => do some { name := ← parseQual? q, value := ← parseStr? v }
+    | _ => none)
 
 /-! ### parsing the case -/
 
